@@ -11,7 +11,7 @@ let show_oout = function None -> "~" | Some o -> show_out o
 let show_node = function
   | TSys o -> "S|" ^ show_out o
   | TOther x -> "O|" ^ field_of_str x
-  | TRef (t, m, f) -> "R|" ^ field_of_ostr t ^ "|" ^ (match m with None -> "~" | Some o -> "[" ^ show_out o ^ "]") ^ "|" ^ field_of_ostr f
+  | TRef (t, m, f, _) -> "R|" ^ field_of_ostr t ^ "|" ^ (match m with None -> "~" | Some o -> "[" ^ show_out o ^ "]") ^ "|" ^ field_of_ostr f
 
 let fe_of = function "D" -> Docutils | "S" -> Sphinx | x -> failwith ("bad frontend " ^ x)
 
